@@ -819,8 +819,26 @@ func concEventScenario(name string, fires int, withOff bool) *vx.Scenario {
 // after it, with and without an ack id, against a raw Socket.IO endpoint (the repo's eio.Server driven by the
 // harness). Two On handlers and one Once handler on the event: every On handler runs for every occurrence, the
 // Once handler for exactly the first.
-func clientSocketOccurrences(name string, early []string, late []string, bound int) *vx.Scenario {
+func clientSocketOccurrences(name string, early []string, late []string, bound int, recovery ...bool) *vx.Scenario {
 	sc := &vx.Scenario{Name: name, Bound: bound, Horizon: 20 * time.Second}
+	// recovery: the endpoint behaves like a server with connection state recovery - its CONNECT reply carries a
+	// private session id and every event without an ack id carries its offset as an extra last argument
+	// (seed c18i: the client skipped every handler but the first once it had noted the packet's offset)
+	connectReply := `0{"sid":"sid0"}`
+	if len(recovery) > 0 && recovery[0] {
+		connectReply = `0{"sid":"sid0","pid":"pid0"}`
+		late = append([]string{}, late...)
+		for i, fr := range late {
+			hdr := strings.Index(fr, "[")
+			if fr == "ATTACHMENT" || hdr < 0 {
+				continue
+			}
+			if c := fr[hdr-1]; hdr > 1 && c >= '0' && c <= '9' {
+				continue // carries an ack id: no offset
+			}
+			late[i] = fr[:len(fr)-1] + fmt.Sprintf(`,"offset-%d"]`, i)
+		}
+	}
 	sc.Body = func(e *vsched.Exec) func() vx.Result {
 		var v vsched.Var
 		var ssock eio.ServerSocket
@@ -887,7 +905,7 @@ func clientSocketOccurrences(name string, early []string, late []string, bound i
 			for _, fr := range early {
 				send(fr)
 			}
-			ssock.Send(vrig.Msg(`0{"sid":"sid0"}`))
+			ssock.Send(vrig.Msg(connectReply))
 			vsched.Await(func() bool { return connected })
 			for _, fr := range late {
 				send(fr)
@@ -929,6 +947,8 @@ func scenarios(tier string) []*vx.Scenario {
 	}
 	s = append(s,
 		clientSocketOccurrences("ClientSocket/occurrences-after-connect", nil, []string{`2["e"]`, `25["e"]`}, 1),
+		clientSocketOccurrences("ClientSocket/recovery-session/occurrences-after-connect", nil, []string{`2["e"]`, `25["e"]`, `2["e"]`}, 1, true),
+		clientSocketOccurrences("ClientSocket/recovery-session/occurrences-with-an-attachment-after-connect", nil, []string{`51-["b",{"_placeholder":true,"num":0}]`, "ATTACHMENT", `51-["b",{"_placeholder":true,"num":0}]`, "ATTACHMENT"}, 1, true),
 		clientSocketOccurrences("ClientSocket/occurrence-buffered-before-the-CONNECT-reply", []string{`2["e"]`}, []string{`2["e"]`}, 1),
 		clientSocketOccurrences("ClientSocket/occurrence-with-ack-id-buffered-before-the-CONNECT-reply", []string{`27["e"]`}, []string{`2["e"]`}, 1),
 		clientSocketOccurrences("ClientSocket/two-buffered-occurrences-with-and-without-ack-id", []string{`27["e"]`, `2["e"]`}, []string{`28["e"]`}, 1),
